@@ -5,7 +5,9 @@ import (
 	"encoding/hex"
 	"errors"
 	"fmt"
+	"io"
 	"math/big"
+	"runtime/debug"
 	"strings"
 	"time"
 
@@ -29,10 +31,23 @@ import (
 	"github.com/ethereum/go-ethereum/common"
 	ethTypes "github.com/ethereum/go-ethereum/core/types"
 	"github.com/rs/zerolog"
+	zlog "github.com/rs/zerolog/log"
 	"github.com/sygmaprotocol/sygma-core/relayer/message"
 )
 
-func silence() { zerolog.SetGlobalLevel(zerolog.Disabled) }
+// silence: nothing is WRITTEN, but every log line is still formatted, as in a running relayer (log level
+// debug): the failure paths of the handlers print the deposit / event / error they failed on, and that
+// printing is part of processing the range - a log line whose formatting panics, hangs or overflows the
+// stack on the field contents of a malformed deposit ends the relayer like any other crash.
+func silence() {
+	// endless recursion dies after 128 MB of stack (well above anything the handlers need), not after 1 GB
+	debug.SetMaxStack(128 << 20)
+	zerolog.SetGlobalLevel(zerolog.TraceLevel)
+	zlog.Logger = zerolog.New(io.Discard).With().Timestamp().Logger()
+}
+
+// discardLog: the logger context handed to the event handlers (formats, writes nowhere)
+func discardLog() zerolog.Context { return zerolog.New(io.Discard).With() }
 
 const sourceDomain = uint8(1)
 
@@ -298,7 +313,7 @@ func driveEvm(c Case) Obs {
 	ch := make(chan []*message.Message, 512)
 	var err error
 	if retry {
-		err = eventHandlers.NewRetryV1EventHandler(zerolog.Nop().With(), l, dh, ps, bridgeAddr, sourceDomain, big.NewInt(5), ch).HandleEvents(big.NewInt(100), big.NewInt(105))
+		err = eventHandlers.NewRetryV1EventHandler(discardLog(), l, dh, ps, bridgeAddr, sourceDomain, big.NewInt(5), ch).HandleEvents(big.NewInt(100), big.NewInt(105))
 	} else {
 		err = eventHandlers.NewDepositEventHandler(l, dh, bridgeAddr, sourceDomain, ch).HandleEvents(big.NewInt(100), big.NewInt(105))
 	}
@@ -311,7 +326,7 @@ func driveEvm(c Case) Obs {
 	// what it pushes goes through the relayer too (nothing of it is part of the groups)
 	cl.retryV2Logs = retryV2Logs(c)
 	ch2 := make(chan []*message.Message, 512)
-	_ = eventHandlers.NewRetryV2EventHandler(zerolog.Nop().With(), l, bridgeAddr, sourceDomain, ch2).HandleEvents(big.NewInt(100), big.NewInt(105))
+	_ = eventHandlers.NewRetryV2EventHandler(discardLog(), l, bridgeAddr, sourceDomain, ch2).HandleEvents(big.NewInt(100), big.NewInt(105))
 	if _, ok := rg.routeAll(pushed(rg, ch2)); !ok {
 		o.Crashed, o.Stuck, o.Note = true, true, "Relayer.route did not finish (retry v2)"
 	}
@@ -456,9 +471,9 @@ func driveSub(c Case) Obs {
 	ch := make(chan []*message.Message, 512)
 	var err error
 	if retry {
-		err = sublistener.NewRetryEventHandler(zerolog.Nop().With(), conn, newSubDepositHandler(), sourceDomain, ch).HandleEvents(big.NewInt(100), big.NewInt(105))
+		err = sublistener.NewRetryEventHandler(discardLog(), conn, newSubDepositHandler(), sourceDomain, ch).HandleEvents(big.NewInt(100), big.NewInt(105))
 	} else {
-		err = sublistener.NewFungibleTransferEventHandler(zerolog.Nop().With(), sourceDomain, newSubDepositHandler(), ch, conn).HandleEvents(big.NewInt(100), big.NewInt(105))
+		err = sublistener.NewFungibleTransferEventHandler(discardLog(), sourceDomain, newSubDepositHandler(), ch, conn).HandleEvents(big.NewInt(100), big.NewInt(105))
 	}
 	o.Failed = err != nil
 	consume(&o, ch, sameNonce, fpt)
@@ -543,7 +558,7 @@ func driveBtc(c Case) Obs {
 	conn := &btcConn{}
 	res, feeAddr := btcSetup()
 	ch := make(chan []*message.Message, 512)
-	h := btclistener.NewFungibleTransferEventHandler(zerolog.Nop().With(), sourceDomain, btclistener.NewBtcDepositHandler(), ch, conn, res, feeAddr)
+	h := btclistener.NewFungibleTransferEventHandler(discardLog(), sourceDomain, btclistener.NewBtcDepositHandler(), ch, conn, res, feeAddr)
 	fpt := newFpTable()
 	lastFpt = fpt
 	back := map[uint64]uint64{} // the real nonce (hash of block number and tx hash) -> the transaction's number in the case
